@@ -9,7 +9,7 @@ SERIAL = False
 RULE = ("one manager life of the PIN protocol on the real FileBasedPin + initialize_device/_handle_bootloader + "
         "HSM2Dongle / HSM2DongleSGX, in a forked child: start {file absent / holds the device PIN (with and "
         "without trailing newline) / holds another PIN / invalid / empty} x default {the device PIN, another, "
-        "none} x forced change {y,n} x device answer to the new PIN {accepts, refuses, errors} x open failure x "
+        "none} x forced change {y,n} x device answer to the new PIN {accepts, refuses, errors, link write / read failure or time-out on that exchange} x open failure x "
         "write failure x crash (os._exit) at {after unlock, after the device's ack, after open-truncate, after "
         "close} x platform {Ledger, SGX}; exhaustive over this product in both tiers; the thorough tier adds "
         "two-life histories (the second life starts from the world the first one left); plus the same protocol "
@@ -81,7 +81,7 @@ def worlds():
 
 def lives():
     for force, dev, open_ok, write_ok, crash in itertools.product(
-            (False, True), ("accept", "refuse", "error"), (True, False), (True, False),
+            (False, True), ("accept", "refuse", "error", "linkW", "linkR", "timeout"), (True, False), (True, False),
             ("none", "afterUnlock", "afterAck", "afterOpen", "afterWrite")):
         if (not open_ok or not write_ok or crash in ("afterAck", "afterOpen", "afterWrite")) and dev != "accept":
             continue
